@@ -149,6 +149,10 @@ struct Plan {
 
   /// Total remaining number of wanted edges.
   int wanted_edges_;
+
+#ifdef NINJA_VERIF
+  friend struct VerifAccess;
+#endif
 };
 
 struct BuildConfig;
@@ -285,6 +289,10 @@ private:
   /// Keep the global exit code for the build
   ExitStatus exit_code_ = ExitSuccess;
   void SetFailureCode(ExitStatus code);
+
+#ifdef NINJA_VERIF
+  friend struct VerifAccess;
+#endif
 
   // Unimplemented copy ctor and operator= ensure we don't copy the auto_ptr.
   Builder(const Builder &other);        // DO NOT IMPLEMENT
